@@ -3,6 +3,7 @@
 package main
 
 import (
+	"encoding/json"
 	"flag"
 	"fmt"
 	"os"
@@ -11,6 +12,7 @@ import (
 	"github.com/luno/workflow/verifharness/pure"
 	"github.com/luno/workflow/verifharness/report"
 	"github.com/luno/workflow/verifharness/rng"
+	"github.com/luno/workflow/verifharness/sim"
 )
 
 type suiteFn func(d *leandrv.Driver, r *rng.R, res *report.Result, thorough bool) error
@@ -32,7 +34,72 @@ func main() {
 	seed := fs.Uint64("seed", 1, "PRNG seed")
 	tier := fs.String("tier", "quick", "quick|thorough")
 	out := fs.String("out", "", "result file")
+	count := fs.Int("n", 0, "number of histories (0 = tier default)")
+	length := fs.Int("len", 60, "actions per history")
+	workers := fs.Int("workers", 8, "parallel workers")
+	verbose := fs.Bool("v", false, "keep observation lines in samples")
+	file := fs.String("file", "", "replay file (sim-replay)")
 	fs.Parse(os.Args[2:])
+	if name == "sim-replay" {
+		var body struct {
+			Replay sim.History `json:"replay"`
+		}
+		b, err := os.ReadFile(*file)
+		if err == nil {
+			err = json.Unmarshal(b, &body)
+		}
+		if err != nil {
+			fmt.Fprintln(os.Stderr, err)
+			os.Exit(2)
+		}
+		var d *leandrv.Driver
+		if os.Getenv("WFH_NOMODEL") != "" {
+			d = &leandrv.Driver{Null: true}
+		} else if d, err = leandrv.Start(); err != nil {
+			d = &leandrv.Driver{Null: true}
+		}
+		viol, lines, err := sim.Replay(d, body.Replay, true)
+		for _, l := range lines {
+			fmt.Println(l)
+		}
+		for _, v := range viol {
+			fmt.Printf("MONITOR %s %s | %s\n", v.Property, v.Signature, v.Detail)
+		}
+		if err != nil {
+			fmt.Println("ERROR", err)
+		}
+		return
+	}
+	if name == "sim-random" || name == "sim-adversary" {
+		feat := sim.AllFeatures
+		if name == "sim-adversary" {
+			feat.Stale, feat.Adversary, feat.Handles, feat.TwoTimeouts = true, true, true, true
+		}
+		res := report.New(name, *seed, *tier)
+		n := 60
+		if *tier == "thorough" {
+			n = 1500
+		}
+		if *count > 0 {
+			n = *count
+		}
+		nomodel := os.Getenv("WFH_NOMODEL") != ""
+		res.NoModel = nomodel
+		res.Rule = "random histories over the generated workflow family (see sim.GenConfig / sim.Gen.Next)"
+		err := sim.RunMany(*seed, n, *workers, res, sim.RunOpts{Feat: feat, Len: *length, Drain: true, Stop: true, Verbose: *verbose, Suite: name,
+			PropsTie: []string{"C01", "C02", "C03", "C04", "C05", "C07", "C08", "C09", "C12", "C13", "C14", "C15", "C16"}}, nomodel)
+		if *out != "" {
+			res.Write(*out)
+		}
+		res.DistinctNontrivial = len(res.Nontrivial)
+		fmt.Printf("suite=%s evaluations=%d distinct_nontrivial=%d model_lines=%d violations=%d disagreements=%d\n",
+			name, res.Evaluations, res.DistinctNontrivial, res.ModelLines, len(res.Violations), len(res.Disagreements))
+		if err != nil {
+			fmt.Fprintln(os.Stderr, "suite error:", err)
+			os.Exit(3)
+		}
+		return
+	}
 	fn, ok := suites[name]
 	if !ok {
 		fmt.Fprintln(os.Stderr, "unknown suite", name)
